@@ -16,6 +16,13 @@ KINDS = {
     4: (4, 0xFFFFFFFF, "FUNC records"),
     41: (4, 0xFFFFFFFF, "STACK CFI INIT records"),
     5: (5, 0xFFFFFFFF, "line records"),
+    13: (1, U64, "MinidumpMemory64List"),
+    14: (1, U64, "UnifiedMemoryList::Memory"),
+    15: (1, U64, "UnifiedMemoryList::Memory64"),
+    16: (1, U64, "UnifiedMemoryInfoList::Info"),
+    17: (2, U64, "UnifiedMemoryInfoList::Maps"),
+    42: (7, 0xFFFFFFFF, "STACK WIN frame-data table (oracle only; modelled under C07)"),
+    43: (7, 0xFFFFFFFF, "STACK WIN FPO table (oracle only; modelled under C07)"),
 }
 
 
@@ -81,7 +88,7 @@ class C08(PropBase):
 
     # the model driver understands model kinds only: translate on the fly
     def canon_model(self, case, ans):
-        return ans
+        return None if ans == "?" else ans
 
     def canon_impl(self, case, ans, profile):
         return ans if not ans.startswith("P;;") else "P;;"
@@ -97,7 +104,7 @@ class C08(PropBase):
             cases.append(fmt_case(kind, ents, qs))
             dist["by_kind"][str(kind)] = dist["by_kind"].get(str(kind), 0) + 1
 
-        maxlen = {0: 3, 1: 3} if tier == "quick" else {0: 4, 1: 3, 11: 3, 3: 3, 4: 3}
+        maxlen = {0: 3, 1: 3, 42: 3} if tier == "quick" else {0: 4, 1: 3, 11: 3, 3: 3, 4: 3, 13: 3, 42: 3, 43: 3}
         low_q = list(range(0, 8))
         top_q = [0, 1] + [TOP + i for i in range(-1, 6)]
         for kind in KINDS:
@@ -179,6 +186,8 @@ class C08(PropBase):
                 table.append((int(s), int(e2), tag))
         ranges = [entry_range(kind, b, s) for (b, s, _) in ents]
         mk = KINDS[kind][0]
+        if mk == 7:
+            return self.oracle_win(ents, ranges, qs, table, parts[2])
         tags = [str(i) if mk in (1, 2, 3) else str(v) for i, (_, _, v) in enumerate(ents)]
         if mk != 3:
             for a, b in zip(table, table[1:]):
@@ -207,6 +216,37 @@ class C08(PropBase):
                 isolated = all(j == i or rj is None or rj[1] < r[0] or r[1] < rj[0] for j, rj in enumerate(ranges))
                 if isolated and got != [tags[i]]:
                     return "entry %d intersects no other entry but lookup at %d returned %s" % (i, q, got or None)
+        return None
+
+    def oracle_win(self, ents, ranges, qs, table, gets_s):
+        """STACK WIN tables: the parser may shorten a record that the next one overlaps; a lookup must still name a
+        record of the file (same address and tag) whose possibly shortened range contains the address."""
+        def split(tag):
+            v, rest = tag.split("@")
+            a, sz = rest.split("+")
+            return int(v), int(a), int(sz)
+        for a, b in zip(table, table[1:]):
+            if not (a[0] <= a[1] < b[0] <= b[1]):
+                return "iteration by address not sorted/non-overlapping: %s then %s" % (a, b)
+        for (st, en, tag) in table:
+            v, a, sz = split(tag)
+            if not (st == a and en == a + sz - 1):
+                return "table range %d-%d does not match its record %s" % (st, en, tag)
+        gets = gets_s.split("|") if gets_s else []
+        if len(gets) != len(qs):
+            return "answer count mismatch"
+        for q, g in zip(qs, gets):
+            if g != "-":
+                v, a, sz = split(g)
+                if not (a <= q <= a + sz - 1):
+                    return "lookup at %d returned record %s whose range does not contain it" % (q, g)
+                if not any(b == a and v0 == v and s0 >= sz for (b, s0, v0) in ents):
+                    return "lookup at %d returned %s which is not a (possibly shortened) record of the file" % (q, g)
+            for i, r in enumerate(ranges):
+                if r and r[0] <= q <= r[1] and all(j == i or rj is None or rj[1] < r[0] or r[1] < rj[0] for j, rj in enumerate(ranges)):
+                    want = "%d@%d+%d" % (ents[i][2], ents[i][0], ents[i][1])
+                    if g != want:
+                        return "record %d intersects no other record but lookup at %d returned %s" % (i, q, g)
         return None
 
     def nontrivial(self, case, ans):
